@@ -330,7 +330,7 @@ def c05(tier, seed):
     q = tier == "quick"
     pipegen_step(res, "C05", tier, seed, "plain20-O0", 12 if q else 1, 250 if q else 4000, enumerate_k=True)
     for s in ([Step("fam_exec", "fib-asan", 60000, 1500000), Step("fam_core", "fib-asan", 20000, 400000, cells="-exec"),
-               Step("fam_coro", "fib-asan", 20000, 400000, cells="stopped-target,future-coroutine/live"),
+               Step("fam_coro", "fib-asan", 20000, 400000, cells="stopped-target,future-coroutine/live,rebind-same-executor"),
                Step("fam_exec", "thr-tsan", 2000, 60000)]):
         if res.harness_error:
             break
